@@ -25,7 +25,8 @@ PH = Profile(raises=0.05, wild=0.3, maxdepth=[1, 2], max_ops=3, modes=['await', 
 def _sc(draw):
     nb = draw(st.integers(2, 5))
     ranks = draw(st.permutations(list(range(1, nb + 1))))
-    buses = [{'par': draw(st.integers(0, 5)) == 0, 'hist': None, 'rank': ranks[i]} for i in range(nb)]
+    small_hist = draw(st.integers(0, 3)) == 0  # bounded histories: eviction must not change forwarding
+    buses = [{'par': draw(st.integers(0, 5)) == 0, 'hist': draw(st.sampled_from([2, 3, 5])) if small_hist else None, 'rank': ranks[i]} for i in range(nb)]
     maxdepth = draw(st.sampled_from([0, 1, 1, 2]))
     shape = draw(st.sampled_from(['random', 'random', 'chain', 'cycle', 'diamond', 'star']))
     edges = []
@@ -55,14 +56,19 @@ def _sc(draw):
             bi = draw(st.integers(0, nb - 1))
             is_async = draw(st.integers(0, 3)) != 0
             prog = draw(handler_prog(PH, nb, level, maxdepth, is_async, False))
-            handlers.append({'bus': bi, 'pat': level if draw(st.integers(0, 3)) else f's{level}', 'kind': 'async' if is_async else 'sync', 'prog': prog, 'ret': draw(st.sampled_from(['idx', 'none', 'str']))})
+            h = {'bus': bi, 'pat': level if draw(st.integers(0, 3)) else f's{level}', 'kind': 'async' if is_async else 'sync', 'prog': prog, 'ret': draw(st.sampled_from(['idx', 'none', 'str']))}
+            if draw(st.integers(0, 5)) == 5:
+                h['bus2'] = draw(st.integers(0, nb - 1).filter(lambda x: x != bi))  # the same function object registered on a second bus
+            handlers.append(h)
     actors = []
     for _ in range(draw(st.integers(1, 3))):
         ops = []
         for _ in range(draw(st.integers(1, 5))):
-            k = draw(st.sampled_from(['disp', 'disp', 'disp', 'sleep', 'await', 'redisp', 'yield']))
+            k = draw(st.sampled_from(['disp', 'disp', 'disp', 'sleep', 'await', 'redisp', 'yield', 'burst']))
             if k == 'disp':
                 ops.append(['disp', draw(st.integers(0, nb - 1)), draw(st.integers(0, maxdepth))])
+            elif k == 'burst':
+                ops.append(['burst', draw(st.integers(0, nb - 1)), draw(st.integers(0, maxdepth)), draw(st.sampled_from([2, 3, 6]))])
             elif k == 'sleep':
                 ops.append(['sleep', draw(st.sampled_from(DUR))])
             elif k == 'await':
